@@ -38,8 +38,7 @@ TECHNIQUE = "Hypothesis op sequences through the real WebsocketLayer vs. message
 LEVEL_TEXT = ("Sampled op sequences; every relayed byte is decoded by independent peers and compared with a "
               "message-list model; sizes around the 4000-byte re-fragmentation threshold are generated on purpose.")
 LEVEL_NOTE = "trusts wsproto decoding and lib/driver.py"
-QUICK_N, THOROUGH_N = 24_000, 1_000_000
-BUDGET_S = (150, 3600)
+QUICK_N, THOROUGH_N = 20_000, 1_000_000
 
 C, S = 0, 1
 OP_TEXT, OP_BIN, OP_CONT, OP_CLOSE, OP_PING, OP_PONG = 1, 2, 0, 8, 9, 10
@@ -212,7 +211,12 @@ def check_case(case, ctx):
         hdrs["Sec-WebSocket-Extensions"] = deflate
     flow.response = http.Response.make(101, headers=hdrs)
     flow.websocket = WebSocketData()
-    lay = wsl.WebsocketLayer(pctx, flow)
+    via_http = bool(case.get("via_http"))
+    if via_http:
+        from mitmproxy.proxy.layers import http as hl
+        lay = hl.HttpLayer(pctx, hl.HTTPMode.transparent)
+    else:
+        lay = wsl.WebsocketLayer(pctx, flow)
     conns = [pctx.client, pctx.server]
 
     # peers: one wsproto endpoint per side (receives what the proxy writes; sends compressed frames when asked)
@@ -224,8 +228,13 @@ def check_case(case, ctx):
     hook_count = [0]
     problems = []
 
+    flow_box = [flow]
+
     def hook_policy(cmd):
+        if cmd.name == "websocket_start":
+            flow_box[0] = cmd.flow
         if cmd.name == "websocket_message":
+            flow = flow_box[0]
             k = hook_count[0]
             hook_count[0] += 1
             if k >= len(model) or not flow.websocket.messages:
@@ -244,9 +253,20 @@ def check_case(case, ctx):
         return None
 
     d = sh.StreamDriver(pctx, lay, hook_policy=hook_policy)
+    d.start()
+    if via_http:
+        # reach the WebsocketLayer the way a real connection does: HTTP/1.1 upgrade through HttpLayer
+        ext = ("Sec-WebSocket-Extensions: %s\r\n" % deflate).encode() if deflate else b""
+        d.recv(pctx.client, b"GET / HTTP/1.1\r\nHost: example.com\r\nConnection: upgrade\r\nUpgrade: websocket\r\n"
+                            b"Sec-WebSocket-Version: 13\r\nSec-WebSocket-Key: dGhlIHNhbXBsZSBub25jZQ==\r\n" + ext + b"\r\n")
+        d.recv(pctx.server, b"HTTP/1.1 101 Switching Protocols\r\nUpgrade: websocket\r\nConnection: Upgrade\r\n"
+                            b"Sec-WebSocket-Accept: s3pPLMBiTxaQ9kYGzzhZRbK+xOo=\r\n" + ext + b"\r\n")
+        if "websocket_start" not in d.hook_names() or d.crashed is not None:
+            raise HarnessError("upgrade did not reach the WebSocket layer: %r %r" % (d.hook_names(), d.crashed))
+        flow = flow_box[0]
+        ctx.cls("via-http-upgrade")
     d.on_send[pctx.client] = rx[C].feed
     d.on_send[pctx.server] = rx[S].feed
-    d.start()
 
     in_progress = [None, None]
     ended = [False]
@@ -572,14 +592,15 @@ _action = weighted((6, st.just(["pass"])), (2, st.just(["drop"])),
                    (2, st.tuples(st.just("app"), _spec_small).map(list)))
 _side = st.integers(0, 1)
 _via = st.sampled_from(["raw", "raw", "ws"])
-_ping = st.tuples(st.just("p"), _side, st.sampled_from(["ping", "pong"]), st.binary(max_size=125)).map(list)
+_ping = st.tuples(st.just("p"), _side, st.sampled_from(["ping", "pong"]),
+                  st.one_of(st.binary(max_size=8), st.sampled_from([b"", b"p" * 125, b"\x00\xff" * 60]))).map(list)
 _inject_small = st.tuples(st.just("i"), _side, st.booleans(), _spec_small, _action).map(list)
 _inject = st.tuples(st.just("i"), _side, st.booleans(), _spec, _action).map(list)
 _msg_small = st.tuples(st.just("m"), _side, st.booleans(), _spec_small, st.lists(st.integers(0, 50), max_size=1),
                        st.just([]), _action, _via, st.just([])).map(list)
 _simple = weighted((2, _ping), (1, _inject_small), (1, _msg_small))
 _msg = st.tuples(st.just("m"), _side, st.booleans(), _spec, st.lists(st.integers(0, 30000), max_size=4),
-                 st.lists(st.lists(_simple, max_size=2), max_size=3), _action, _via,
+                 st.lists(st.lists(_simple, max_size=2), max_size=2), _action, _via,
                  st.lists(st.integers(0, 30000), max_size=3)).map(list)
 _reason = st.lists(st.integers(0, 23), max_size=12).map(lambda ids: "".join(TEXT_ATOMS[i] for i in ids))
 _codes = st.one_of(st.sampled_from([1000, 1001, 1002, 1003, 1007, 1008, 1009, 1010, 1011, 1012, 1013]),
@@ -600,4 +621,5 @@ _deflate = st.one_of(
 
 def strategy(ctx):
     op = weighted((12, _msg), (2, _ping), (3, _inject), (2, _close))
-    return st.fixed_dictionaries({"deflate": _deflate, "ops": st.lists(op, min_size=1, max_size=7)})
+    return st.fixed_dictionaries({"deflate": _deflate, "ops": st.lists(op, min_size=1, max_size=7),
+                                  "via_http": st.sampled_from([False, False, True])})
